@@ -1501,6 +1501,18 @@ fn gen_c06(o: &mut Out, r: &mut Rng, d: &GDict, tier: &str) {
                 o.line(&format!("sdec {} {}", n + 1, chunks_to_events(&stream, &[i, j])));
             }
         }
+        // "not ready yet" for a long time (virtual seconds to minutes) at every cut position of short streams: a reader
+        // that gives up on, or restarts, a partly read frame after some idle period shows here
+        if stream.len() <= 120 {
+            for i in 1..stream.len() {
+                let ms = [700u64, 6000, 61000, 1_800_000][i % 4];
+                o.line(&format!("sdec {} d:{},t:{},d:{}", n + 1, hex(&stream[..i]), ms, hex(&stream[i..])));
+            }
+        } else {
+            for i in [1usize, 2, 3, 4, 5, 19, 20, 21] {
+                o.line(&format!("sdec {} d:{},t:{},d:{}", n + 1, hex(&stream[..i]), [6000u64, 61000][i % 2], hex(&stream[i..])));
+            }
+        }
         // Pending placements: base script = one chunk per cut at the frame-internal boundaries 4 and 20; every
         // placement of up to two pauses between the events (exhaustive), then random scripts
         let mut cuts = vec![];
@@ -1683,6 +1695,22 @@ fn gen_c08(o: &mut Out, r: &mut Rng, d: &GDict, tier: &str, cuts: bool) {
                     _ => random_wscript(r, total_ans),
                 };
                 o.line(&format!("serve {} {} {}", all_ok.join(","), rd, wr));
+            }
+            // long silences (virtual minutes) inside the first octets of a frame, inside a body and between frames: an
+            // idle peer is not a faulty one
+            let mut offs: Vec<usize> = vec![];
+            let mut acc = 0;
+            for f in &rf {
+                offs.extend([acc + 1, acc + 2, acc + 3, acc + 4, acc + 19, acc + f.len() - 1, acc + f.len()]);
+                acc += f.len();
+            }
+            for (i, c) in offs.iter().enumerate() {
+                if *c == 0 || *c >= stream.len() {
+                    continue;
+                }
+                o.case(&format!("serve good corpus={} reqlens={} anslens={}", ci, rl.join(","), al.join(",")));
+                setup(o, r);
+                o.line(&format!("serve {} d:{},t:{},d:{} -", all_ok.join(","), hex(&stream[..*c]), [6000u64, 61000, 700_000][i % 3], hex(&stream[*c..])));
             }
             // one failing handler call at every position
             for k in 0..nreq {
